@@ -352,4 +352,5 @@ def r19_3(ctx):
 
 def run(ctx):
     import engine
-    engine.run_rules(ctx, [r19_1, r19_2, r19_3])
+    import statecoh
+    engine.run_rules(ctx, [r19_1, r19_2, r19_3, statecoh.r10_6])
